@@ -1059,6 +1059,7 @@ int
 coap_pdu_parse_header(coap_pdu_t *pdu, coap_proto_t proto) {
   uint8_t *hdr = pdu->token - pdu->hdr_size;
   uint8_t e_token_length;
+  int broken = 0;
 
   if (proto == COAP_PROTO_UDP || proto == COAP_PROTO_DTLS) {
     assert(pdu->hdr_size == 4);
@@ -1090,16 +1091,26 @@ coap_pdu_parse_header(coap_pdu_t *pdu, coap_proto_t proto) {
     pdu->actual_token.length = pdu->e_token_length;
     pdu->actual_token.s = &pdu->token[0];
   } else if (e_token_length == COAP_TOKEN_EXT_1B_TKL) {
-    pdu->e_token_length = pdu->token[0] + COAP_TOKEN_EXT_1B_BIAS + 1;
-    pdu->actual_token.length = pdu->e_token_length - 1;
-    pdu->actual_token.s = &pdu->token[1];
+    if (pdu->used_size < 1) {
+      /* the extended token length byte is not there */
+      broken = 1;
+    } else {
+      pdu->e_token_length = pdu->token[0] + COAP_TOKEN_EXT_1B_BIAS + 1;
+      pdu->actual_token.length = pdu->e_token_length - 1;
+      pdu->actual_token.s = &pdu->token[1];
+    }
   } else if (e_token_length == COAP_TOKEN_EXT_2B_TKL) {
-    pdu->e_token_length = ((uint16_t)pdu->token[0] << 8) + pdu->token[1] +
-                          COAP_TOKEN_EXT_2B_BIAS + 2;
-    pdu->actual_token.length = pdu->e_token_length - 2;
-    pdu->actual_token.s = &pdu->token[2];
+    if (pdu->used_size < 2) {
+      /* the extended token length bytes are not there */
+      broken = 1;
+    } else {
+      pdu->e_token_length = ((uint16_t)pdu->token[0] << 8) + pdu->token[1] +
+                            COAP_TOKEN_EXT_2B_BIAS + 2;
+      pdu->actual_token.length = pdu->e_token_length - 2;
+      pdu->actual_token.s = &pdu->token[2];
+    }
   }
-  if (pdu->e_token_length > pdu->alloc_size || e_token_length == 15) {
+  if (broken || pdu->e_token_length > pdu->alloc_size || e_token_length == 15) {
     /* Invalid PDU provided - not wise to assert here though */
     coap_log_debug("coap_pdu_parse: PDU header token size broken\n");
     pdu->e_token_length = 0;
